@@ -39,6 +39,7 @@ def parseEv (s : String) : Option Ev :=
   | "r" :: id :: rest => do some (.resolved (← id.toNat?) (← parseRes rest))
   | ["w", k] => k.toNat?.map .waitCall
   | ["v", k] => k.toNat?.map .waitRet
+  | ["m", off] => off.toInt?.map .marker
   | _ => none
 
 def parseCfg (flags pid epoch seq0 ver : String) : Option Cfg :=
